@@ -462,10 +462,13 @@ def vector_potential_sums(tagger):
                     continue    # only maximal sums
                 terms = sum_terms(sub)
                 # a term may be a local temporary holding the product: look through it
+                orig = [t for s_, t in terms]
                 terms = [(s_, fl.inline(t, n.id, depth=1) if isinstance(t, ast.Name) else t) for s_, t in terms]
                 if not all(isinstance(t, ast.BinOp) and isinstance(t.op, ast.Mult) for s_, t in terms):
                     continue
-                avs = [(t, tagger.eval(t, n.id)) for s_, t in terms]
+                # a temporary is evaluated as the name (at its own definition the factors it was built from
+                # had the values of that time - they may have been reassigned for the other half since)
+                avs = [(t, tagger.eval(o_ if isinstance(o_, ast.Name) else t, n.id)) for (s_, t), o_ in zip(terms, orig)]
                 if len(avs) == 2 and all({'pot', 'dirvec'} <= a.fams for t, a in avs):
                     out.append((sub, avs, st))
     return out
